@@ -7,10 +7,11 @@
   operations answer `err:<kind>`.
 -/
 import Driver.Ops
+import Driver.TrajOps
 
 open BC Driver
 
-def allOps : List (String × P String) := Driver.table
+def allOps : List (String × P String) := Driver.table ++ Driver.trajTable
 
 def dispatch (op : String) (args : List String) : String :=
   match allOps.find? (·.1 == op) with
